@@ -371,6 +371,9 @@ class Range(Operand):
                 pass
         ctx = (context or {}).copy()
         ctx.update(d)
+        if 'directory' not in d and 'excel_id' not in d and d.get(
+                'filename') in ctx.get('external_links', ()):
+            ctx['excel_id'] = d['filename']  # Quoted link: '[1]Sheet 1'!A1.
         if ctx.get('anchor'):
             ctx['anchor'] = '#'
             ctx['is_ranges'] = False
